@@ -509,6 +509,20 @@ def must_reset(ctx, body, cell, visiting):
             if adt == cell[0] and (body.id, cell) in ctx.eff.why and ctx.eff.why[(body.id, cell)][0] == "whole-struct-assign":
                 blocks.add(bi)
     for bi, t in body.calls():
+        cn_ = t.get("cn") or ""
+        if cn_.endswith(("RefCell::take",)) and t["args"]:
+            ch, _ = field_chain(sy.operand(t["args"][0]))
+            if ch and ch[-1] == cell:
+                blocks.add(bi)
+        if cn_.endswith(("RefCell::replace",)) and len(t["args"]) > 1:
+            ch, _ = field_chain(sy.operand(t["args"][0]))
+            v = sy.operand(t["args"][1])
+            if ch and ch[-1] == cell and v[0] == "agg" and v[2].endswith("Option::None"):
+                blocks.add(bi)
+        if cn_.endswith("Option::take") and t["args"]:
+            ch, _ = field_chain(sy.operand(t["args"][0]))
+            if ch and ch[-1] == cell:
+                blocks.add(bi)
         tgt = t.get("resolved") or t.get("callee")
         cb = ctx.facts.bodies.get(tgt)
         if cb is not None and t.get("callee_local"):
